@@ -258,6 +258,25 @@ def nameflow(ctx, R="R-C14-nameflow"):
     ok = v is not None and astq.in_texts(v, ("frame_style=='centered'", '"centered"==frame_style', "frame_style==\"centered\"",))
     ctx.check(ok, R, init, v if v is not None else init.node, "centered is frame_style == 'centered'",
               "self.centered is %s" % (astq.text(v) if v is not None else None))
+    # the signal itself reaches the functional port: no conversion on the way (eager and scripted modules, and the NumPy twin, see the same samples)
+    try:
+        fev2 = SymEval(prog, fwd).run()
+        for _, v_, rn in fev2.returns:
+            if v_.op == "call" and len(v_.args) >= 2 and str(v_.args[0]).endswith("pytorch_stft_frame_computer"):
+                a0 = v_.args[1]
+                if a0 == S.sym(fwd.params[1]):
+                    ctx.ok(R, fwd.loc(rn), "forward hands its input to the functional port unchanged")
+                else:
+                    from .. import scenario as SC
+                    calls, _ = SC.vocabulary(a0)
+                    conv = {"torch.as_tensor", "torch.tensor", ".to", ".float", ".double", ".half", ".type", ".contiguous", ".detach", ".clone", "torch.jit.is_scripting"}
+                    if {c_ for c_ in calls if not str(c_).startswith("kw:")} <= conv and not S.has_unknown(a0):
+                        ctx.bad(R, fwd, rn, "forward converts its input before the computation (%s): a float64 signal is then processed in another precision than "
+                                "compute_full / the scripted module use" % S.show(a0)[:140], "forward hands its input to the functional port unchanged")
+                    else:
+                        ctx.error(R, "cannot decide what forward hands to the functional port: %s" % S.show(a0)[:160])
+    except AnalysisError:
+        pass
     # every functional parameter except eps is supplied by forward
     missing = [p for p in fparams if p not in fbound and p != "eps"]
     ctx.check(not missing, R, fwd, frets[0], "forward supplies every parameter of the functional port",
